@@ -38,7 +38,8 @@ def model_expect(case, root, layouts, counted):
     traces = {}
     for pname, cmds in case["platforms"].items():
         for i, cmd in enumerate(cmds):
-            used, ev = model.run(os.path.join(root, cmd["file"]), cmd.get("defines", ()), abs_dirs(root, cmd), cmd.get("forced", ()))
+            used, ev = model.run(os.path.join(root, cmd["file"]), cmd.get("defines", ()), abs_dirs(root, cmd), cmd.get("forced", ()),
+                                 cwd=os.path.join(root, cmd["cwd"]) if cmd.get("cwd") else None)
             per_cmd[(pname, i)] = {p: set(s) for p, s in used.items()}
             events[(pname, i)] = list(ev)
             traces[(pname, i)] = (list(model.trace), dict(model.entered))
